@@ -66,6 +66,8 @@ WHAT_NUMSTR = ("F-C13c: a string column whose first cell looks like a number can
 WHAT_HASH = "F-C13d: a string cell containing '#' breaks reading (genfromtxt treats it as a comment)"
 WHAT_LSPACE = "F-C13e: leading white space of a string cell is lost on reading"
 WHAT_U64 = "F-C13f: unsigned integers >= 2^63 of a csv column come back as rounded floats"
+WHAT_EXCL = ("F-C13g: csv columns named 'file', 'print' or 'return' come back as 'file_', 'print_', 'return_' "
+             "(numpy genfromtxt's name validator appends '_' to the names on its fixed exclusion list)")
 
 
 # ------------------------------------------------------------------------------------------------ generation
@@ -653,6 +655,7 @@ def table_stream(ctx, n):
         (WHAT_HASH, [["s", "str", ["a#b", "c"]], ["b", "float", [3.0, 4.5]]]),
         (WHAT_LSPACE, [["s", "str", [" a", "c"]], ["b", "float", [3.0, 4.5]]]),
         (WHAT_U64, [["n", "uint", [2 ** 63 + 1, 2 ** 64 - 1]], ["b", "float", [3.0, 4.5]]]),
+        (WHAT_EXCL, [["file", "float", [1.5, 2.25]], ["print", "int", [1, 2]], ["return", "str", ["x", "yz"]], ["t", "float", [0.5, 1.0]]]),
     ]
     for what, cols in probes:
         bad = table_roundtrip(cols, base)
